@@ -79,6 +79,12 @@ Definition cache_model (c : bool * list cop) : list (cout * nat) :=
                 dict(op='goc', sub=['s'], key='k', comp=[None], force=False), dict(op='get', sub=['s'], key='k'),
                 dict(op='plant', sub=[], key='k', other='k', value=None), dict(op='get', sub=[], key='k'),
                 dict(op='goc', sub=[], key='k', comp=[3], force=False)]),
+            # a forced computation that raises leaves the stored value in place
+            dict(allow_nones=True, ops=[
+                dict(op='goc', sub=[], key='k', comp=[1], force=False), dict(op='goc', sub=[], key='k', comp=None, force=True),
+                dict(op='get', sub=[], key='k'), dict(op='goc', sub=[], key='k', comp=[2], force=False),
+                dict(op='goc', sub=['s'], key='k', comp=[3], force=False), dict(op='goc', sub=['s'], key='k', comp=None, force=True),
+                dict(op='get', sub=['s'], key='k')]),
             # falsy values that are not None, with None refused
             dict(allow_nones=False, ops=[x for v in (0, '', [], {}, False, 0.0) for x in (
                 dict(op='goc', sub=[], key=f'k{v!r}', comp=[v], force=False), dict(op='get', sub=[], key=f'k{v!r}'),
@@ -228,9 +234,100 @@ Definition cache_model (c : bool * list cop) : list (cout * nat) :=
         return d
 
 
+class ArrayAndFrameCaches(Suite):
+    """NumpyArrayCache and DataFrameCache: the stored value is returned (also by a new cache object on the same
+    directory) without computing, force recomputes, a raising computation stores nothing (runtime check with the
+    real serializers; the map model is instantiated for JsonCache)"""
+    name = 'array_and_frame_caches'
+    model = ''
+
+    def gen(self, rng, tier):
+        kinds = ['int', 'float', 'empty', 'zero_d', 'object', 'strings', 'bool', 'big']
+        return ([dict(cache='numpy', kind=k) for k in kinds] +
+                [dict(cache='frame', kind=k) for k in ('simple', 'empty', 'mixed', 'index')])
+
+    @staticmethod
+    def make(case):
+        import numpy as np
+        import pandas as pd
+        k = case['kind']
+        if case['cache'] == 'numpy':
+            return {'int': lambda: np.arange(12).reshape(3, 4), 'float': lambda: np.linspace(0, 1, 7),
+                    'empty': lambda: np.zeros((0, 3)), 'zero_d': lambda: np.array(2.5),
+                    'object': lambda: np.array([{'a': 1}, None, [1, 2], 'x'], dtype=object),
+                    'strings': lambda: np.array(['a', 'bcd', '']), 'bool': lambda: np.array([True, False]),
+                    'big': lambda: np.arange(5000, dtype='int64')}[k]()
+        return {'simple': lambda: pd.DataFrame({'a': [1, 2], 'b': ['x', 'y']}), 'empty': lambda: pd.DataFrame(),
+                'mixed': lambda: pd.DataFrame({'a': [1.5, None], 'b': [[1], {'k': 2}]}),
+                'index': lambda: pd.DataFrame({'v': [1, 2, 3]}, index=['r1', 'r2', 'r3'])}[k]()
+
+    def run_impl(self, case):
+        from taskchain.cache import NumpyArrayCache, DataFrameCache, NO_VALUE
+        from .c06 import describe
+        import logging
+        logging.getLogger('cache').handlers = [logging.NullHandler()]
+        d = tempfile.mkdtemp(prefix='tcverif-cache2-')
+        cls = NumpyArrayCache if case['cache'] == 'numpy' else DataFrameCache
+        try:
+            calls = [0]
+
+            def comp():
+                calls[0] += 1
+                return self.make(case)
+
+            def boom():
+                calls[0] += 1
+                raise Boom()
+            c = cls(Path(d) / 'root')
+            out = dict(expected=describe(self.make(case)))
+            out['first'] = describe(c.get_or_compute('k', comp)); out['calls_first'] = calls[0]
+            out['second'] = describe(c.get_or_compute('k', comp)); out['calls_second'] = calls[0]
+            g = c.get('k')
+            out['get'] = 'NO_VALUE' if g is NO_VALUE else describe(g)
+            c2 = cls(Path(d) / 'root')
+            out['fresh'] = describe(c2.get_or_compute('k', comp)); out['calls_fresh'] = calls[0]
+            out['forced'] = describe(c2.get_or_compute('k', comp, force=True)); out['calls_forced'] = calls[0]
+            try:
+                c2.get_or_compute('k', boom, force=True)
+                out['boom'] = 'returned'
+            except Boom:
+                out['boom'] = 'raised'
+            g = c2.get('k')
+            out['after_boom'] = 'NO_VALUE' if g is NO_VALUE else describe(g)
+            try:
+                c2.get_or_compute('other', boom)
+            except Boom:
+                pass
+            g = c2.get('other')
+            out['other'] = 'NO_VALUE' if g is NO_VALUE else describe(g)
+            return out
+        finally:
+            shutil.rmtree(d, ignore_errors=True)
+
+    def oracle(self, case, obs):
+        if 'unexpected_exception' in obs:
+            return f'unexpected exception {obs["unexpected_exception"]}: {obs["text"]}'
+        e = obs['expected']
+        for tag in ('first', 'second', 'get', 'fresh', 'forced', 'after_boom'):
+            if json.dumps(obs[tag], sort_keys=True, default=str) != json.dumps(e, sort_keys=True, default=str):
+                return f'{case}: {tag} yields {json.dumps(obs[tag], default=str)[:200]}, the stored value is {json.dumps(e, default=str)[:200]}'
+        if (obs['calls_first'], obs['calls_second'], obs['calls_fresh'], obs['calls_forced']) != (1, 1, 1, 2):
+            return (f'{case}: the computation was called {obs["calls_first"]}, {obs["calls_second"]}, {obs["calls_fresh"]}, '
+                    f'{obs["calls_forced"]} times (cumulative) after the first, second, fresh-object and forced request; expected 1, 1, 1, 2')
+        if obs['boom'] != 'raised' or obs['other'] != 'NO_VALUE':
+            return f'{case}: a raising computation {obs["boom"]} and left {obs["other"]} for a key never stored'
+        return None
+
+    def nontrivial(self, case, obs):
+        return True
+
+    def key(self, case):
+        return repr(case)
+
+
 class C14(Prop):
     pid = 'C14'
-    suites = [JsonCacheOps()]
+    suites = [JsonCacheOps(), ArrayAndFrameCaches()]
     trusted_base = ['orjson round trip of JSON-like values and "no proper prefix of an entry parses" (damaged files are '
                     'produced by truncation at arbitrary byte lengths in the correspondence)']
     assumptions = ['sequential use (concurrency is C15); SHA-256 without collision on the keys that occur']
